@@ -53,8 +53,13 @@ class Compiler:
         addr = start
         data = b""
 
-        local_symbol_prefix = f".local{self.next_local_symbol_prefix}."
-        self.next_local_symbol_prefix += 1
+        if state["context"] == "repeat" and "local_symbol_prefix" in state:
+            # Labels cannot be defined inside '.repeat', so its body stays in the scope of the enclosing code
+            # and can refer to the local labels around it
+            local_symbol_prefix = state["local_symbol_prefix"]
+        else:
+            local_symbol_prefix = f".local{self.next_local_symbol_prefix}."
+            self.next_local_symbol_prefix += 1
 
         try:
             for insn in block.insns:
